@@ -51,7 +51,7 @@ def main(tier, seed):
         metrics = metrics[:7] + ["log_squared_euclidean", "kullback_leibler", "hamming"]
     nviol = 0
     stats = dict(runs=0, by_model={}, formats={"txt": 0, "csv": 0}, skipped=0, matrix_entries=0)
-    rounds = 1 if tier == "quick" else 6
+    rounds = 1 if tier == "quick" else 20
     for metric in metrics:
         for rnd in range(rounds):
             N, dim = rng.randint(10, 16), rng.randint(1, 3)
